@@ -9,6 +9,7 @@ import hashlib
 import os
 import re
 import shutil
+import stat
 import signal
 import subprocess
 import sys
@@ -216,6 +217,12 @@ def materialise(world, root):
             os.makedirs(os.path.dirname(full), exist_ok=True)
             os.symlink(e["target"], full)
     for p, e in items:
+        if e["t"] == "p":
+            # a named pipe (opening one for reading blocks until somebody writes: only regular files are source files)
+            full = os.path.join(root, p)
+            os.makedirs(os.path.dirname(full), exist_ok=True)
+            os.mkfifo(full, 0o644)
+    for p, e in items:
         if e["t"] == "h":
             # a hard link to a file of the world (read back as an ordinary file)
             full = os.path.join(root, p)
@@ -242,6 +249,8 @@ def read_world(root):
                 out[rel] = {"t": "l", "target": os.readlink(full)}
             elif os.path.isdir(full):
                 out[rel] = {"t": "d", "mode": st.st_mode & 0o7777}
+            elif stat.S_ISFIFO(st.st_mode):
+                out[rel] = {"t": "p", "mode": st.st_mode & 0o7777}
             else:
                 try:
                     with open(full, "rb") as f:
@@ -300,6 +309,9 @@ def plan_text(plan):
     if plan.get("mount"):
         lines.append("mount %s" % plan["mount"])
     for f in plan.get("faults", []):
+        if f["act"] == "sig_stdout":
+            lines.append("stdout_sig_at %d %d" % (f["nth"], f["signo"]))
+            continue
         parts = ["fault"]
         if f.get("k"):
             parts.append("k=%d" % f["k"])
